@@ -30,7 +30,12 @@ def normalise(events, names):
             out.append((k, name, e[3]))
         elif e[0] == 'acc':
             obj = e[2]
-            name = names.get(repr(('map', obj[1]))) if obj[0] == 'map' else names.get(repr(('ptr', obj[1], tuple(obj[2]))))
+            if obj[0] == 'map':
+                name = names.get(repr(('map', obj[1])))
+            elif obj[0] == 'cell':
+                name = names.get(repr(('cell', obj[1])))
+            else:
+                name = names.get(repr(('ptr', obj[1], tuple(obj[2]))))
             if name is None:
                 continue
             out.append((e[1], name, e[3]))
